@@ -147,16 +147,25 @@ REASONS = [
      "<= len); authority[..authority_len] with authority_len = a position() hit (< len) or authority.len(). The "
      "host itself is taken with the checked slice::get", None),
     (r"^filters::network_matchers::anchored_hostname_ends::\{closure#0\}$", r"^index\|", "local",
-     "haystack[from..] inside `while from + needle.len() <= haystack.len()`, so from <= len", None),
+     "haystack[from..] inside `while from + needle.len() <= haystack.len()`, so from <= len", None,
+     [r" Le core::slice::len\(up#2\)\) == 1$"]),
     (r"^filters::network_matchers::anchored_hostname_ends::\{closure#0\}$", r"^assert\|BoundsCheck\|PtrMetadata\(up#0\)", "local",
-     "needle[0] and needle[needle.len() - 1] are reached only after the early return for an empty needle", None),
+     "needle[0] and needle[needle.len() - 1] are reached only after the early return for an empty needle", None,
+     [r"^core::slice::is_empty\(up#0\) == 0$"]),
     (r"^filters::network_matchers::anchored_hostname_ends::\{closure#0\}$", r"^assert\|Overflow\(Sub\)\|core::slice::len\(up#0\) , 1", "local",
-     "needle.len() - 1 after the early return for an empty needle", None),
+     "needle.len() - 1 after the early return for an empty needle", None,
+     [r"^core::slice::is_empty\(up#0\) == 0$"]),
     (r"^filters::network_matchers::anchored_hostname_ends::\{closure#0\}$", r"^assert\|Overflow\(Sub\)\|", "local",
-     "start - 1 is evaluated only when start != 0 (right operand of `start == 0 || ..`)", None),
+     "start - 1 is evaluated only when start != 0 (a later operand of `.. || start == 0 || ..`)", None,
+     [r"@Continue\.0\)\.0 Eq 0\) == 0$"]),
+    (r"^filters::network_matchers::anchored_hostname_ends::\{closure#0\}$", r"^assert\|BoundsCheck\|PtrMetadata\(up#2\) , \(\(up#1 AddWithOverflow .*SubWithOverflow 1\)", "local",
+     "haystack[start - 1]: start is a memmem::find hit in haystack[from..] shifted by from, so start + needle.len() <= "
+     "haystack.len() and start - 1 < len; start - 1 itself is evaluated only when start != 0", None,
+     [r"@Continue\.0\)\.0 Eq 0\) == 0$", r"^discr\(memchr::memmem::find\(.*\)\) == 0$"]),
     (r"^filters::network_matchers::anchored_hostname_ends::\{closure#0\}$", r"^assert\|BoundsCheck\|PtrMetadata\(up#2\)", "local",
-     "start is a memmem::find hit in haystack[from..] shifted by from, so start + needle.len() <= haystack.len(): "
-     "start - 1 < len; haystack[end] (end = start + needle.len()) is evaluated only when end != haystack.len()", None),
+     "haystack[end] with end = start + needle.len() <= haystack.len() (start is a memmem::find hit in haystack[from..] "
+     "shifted by from); evaluated only when end != haystack.len()", None,
+     [r"Eq core::slice::len\(up#2\)\) == 0$", r"^discr\(memchr::memmem::find\(.*\)\) == 0$"]),
     # ------------------------------------------------------------------ lists.rs
     (r"^lists::read_list_metadata$", r".", "local",
      "cutoff = min(len, 1024) is decremented only while !is_char_boundary(cutoff); 0 is a boundary", None),
